@@ -33,9 +33,14 @@ type Report struct {
 	NCases       int            `json:"n_cases"`
 	CaseNames    []string       `json:"case_names"`
 	ShardSize    int            `json:"shard_size"`
+	Scenarios     int           `json:"scenarios"`
+	ScenarioSteps int           `json:"scenario_steps"`
+	ScenFiles     []string      `json:"scen_files"`
+	ScenShard     int           `json:"scen_shard"`
 }
 
 type Ctx struct {
+	scens []string
 	Prop  string
 	Tier  string
 	Seed  uint64
@@ -84,12 +89,50 @@ func caseKey(cs Case) string {
 }
 
 const shardSize = 150
+const scenShard = 12
+
+// AddScenario records one executed scenario for the model comparison
+func (c *Ctx) AddScenario(s *Sys, pols []int) {
+	c.scens = append(c.scens, s.Coq(pols))
+	if f, err := os.OpenFile(filepath.Join(c.Out, c.Prop+"_"+c.Tier+"_traces.txt"), os.O_APPEND|os.O_CREATE|os.O_WRONLY, 0o644); err == nil {
+		fmt.Fprintf(f, "=== scenario %d policies %v\n", len(c.scens)-1, pols)
+		for i, t := range s.trace {
+			fmt.Fprintf(f, "%d: %s\n    op:  %s\n    obs: %s\n", i, t, s.ops[i], coqStr(s.obs[i]))
+		}
+		f.Close()
+	}
+	c.Rep.Evaluations++
+	c.Rep.Distinct++
+	c.Rep.Scenarios++
+	c.Rep.ScenarioSteps += len(s.ops)
+}
+
+func (c *Ctx) writeScenarios() error {
+	for i := 0; i*scenShard < len(c.scens); i++ {
+		lo, hi := i*scenShard, (i+1)*scenShard
+		if hi > len(c.scens) {
+			hi = len(c.scens)
+		}
+		var sb strings.Builder
+		sb.WriteString("From OTR Require Import Go.Base Corr.Val Proto.SmpTypes Proto.Keys Proto.Smp Proto.Conv Proto.Run.\nOpen Scope N_scope.\n")
+		sb.WriteString("Definition scens : list scenario := [\n")
+		sb.WriteString(strings.Join(c.scens[lo:hi], ";\n"))
+		sb.WriteString("].\nDefinition M := Eval vm_compute in scen_mismatches 0 scens.\nPrint M.\n")
+		name := fmt.Sprintf("%s_%s_scen_%d.v", c.Prop, c.Tier, i)
+		if err := os.WriteFile(filepath.Join(c.Out, name), []byte(sb.String()), 0o644); err != nil {
+			return err
+		}
+		c.Rep.CaseFiles = append(c.Rep.CaseFiles, name)
+		c.Rep.ScenFiles = append(c.Rep.ScenFiles, name)
+	}
+	return nil
+}
 
 func (c *Ctx) writeCases() error {
 	n := len(c.cases)
 	c.Rep.NCases = n
 	c.Rep.ShardSize = shardSize
-	for s := 0; s*shardSize < n || (s == 0 && n == 0); s++ {
+	for s := 0; s*shardSize < n; s++ {
 		lo, hi := s*shardSize, (s+1)*shardSize
 		if hi > n {
 			hi = n
@@ -155,6 +198,7 @@ func main() {
 		os.Exit(2)
 	}
 	_ = os.MkdirAll(out, 0o755)
+	_ = os.Remove(filepath.Join(out, prop+"_"+tier+"_traces.txt"))
 	ctx := &Ctx{Prop: prop, Tier: tier, Seed: seed, Out: out, R: NewRNG(seed),
 		Rep:  &Report{Property: prop, Seed: seed, Tier: tier, Distribution: map[string]int{}, Violations: []Violation{}},
 		seen: map[string]bool{}}
@@ -163,6 +207,11 @@ func main() {
 	}
 	g(ctx)
 	if err := ctx.writeCases(); err != nil {
+		fmt.Fprintln(os.Stderr, err)
+		os.Exit(2)
+	}
+	ctx.Rep.ScenShard = scenShard
+	if err := ctx.writeScenarios(); err != nil {
 		fmt.Fprintln(os.Stderr, err)
 		os.Exit(2)
 	}
